@@ -724,7 +724,17 @@ func monitor(trace []tev, mode int) string {
 			}
 		case "xcancel":
 			if e.id < len(execs) {
-				execs[e.id].cancelled = true
+				x := execs[e.id]
+				x.cancelled = true
+				// The client released this execution. Unless the scheduler told it to
+				// stop (idle / execute instruction being processed: stopExecution discards
+				// the result), an action whose Execute() has returned must have had its
+				// completion reported by now: the channel is drained and closed, nothing
+				// more can arrive.
+				byInstruction := lastReply != nil && lastReply.tsOK && (lastReply.rkind == "idle" || (lastReply.rkind == "exec" && lastReply.xkind == "ok"))
+				if x.returned && !byInstruction && !x.doneSeen {
+					return fmt.Sprintf("completion reported: the client released action %d after its Execute() had returned (response r%d) without ever reporting its completion", x.d, x.rid)
+				}
 			}
 		case "enter":
 			if running() > 0 {
@@ -766,6 +776,9 @@ func monitor(trace []tev, mode int) string {
 				x := execs[len(execs)-1]
 				if x.d != e.d {
 					return fmt.Sprintf("honest state: request reports action %d but the most recently started action is %d", e.d, x.d)
+				}
+				if e.phase != "done" && x.returned && x.cancelled {
+					return fmt.Sprintf("honest state: request reports action %d in progress (%s) although its Execute() has returned and the client has released the execution; its completion (r%d) was never reported", e.d, e.phase, x.rid)
 				}
 				switch e.phase {
 				case "done":
@@ -990,13 +1003,14 @@ func compare(out *outcome, drv *hx.Driver) {
 // ---- generator ----------------------------------------------------------------------
 
 type gen struct {
-	longPolls int
-	plan      [][]string // scripted ops to emit first ("@exec" = execute reply built when it is due)
-	r         *hx.Rand
-	left      int
-	burst     int
-	digest    int
-	rid       int
+	longPolls  int
+	fullBursts int
+	plan       [][]string // scripted ops to emit first ("@exec" = execute reply built when it is due)
+	r          *hx.Rand
+	left       int
+	burst      int
+	digest     int
+	rid        int
 }
 
 func (g *gen) ts(now int64) string {
@@ -1080,6 +1094,24 @@ func (g *gen) next(w *world) []string {
 			return []string{"reply", strconv.FormatInt(w.now+int64(g.r.Intn(3)), 10), "exec", strconv.Itoa(g.digest), "ok"}
 		}
 		return f
+	}
+	// Chatty executor while the worker thread does not look at the channel (it is
+	// inside Synchronize, or in the error back-off that follows): 9, 10 or 11
+	// updates pending (channel capacity 10) at the moment Execute() returns.
+	if at == "sync" && canExec && len(w.opSent) > 0 && g.r.Chance(1, 6) {
+		n := []int{9, 10, 10, 11}[g.r.Intn(4)]
+		g.fullBursts++
+		var plan [][]string
+		if g.r.Chance(1, 3) {
+			plan = append(plan, []string{"reply", "err"}) // updates arrive during the back-off
+		}
+		for i := 0; i < n; i++ {
+			plan = append(plan, []string{"emit", strconv.Itoa(1 + g.r.Intn(3))})
+		}
+		g.rid++
+		plan = append(plan, []string{"finish", strconv.Itoa(g.rid), b01(g.r.Chance(2, 3))})
+		g.plan = plan
+		return []string{}
 	}
 	// Long poll: the blocking Synchronize of an idle worker returns an action
 	// more than a minute after the previous deadline, and shutdown begins
@@ -1177,7 +1209,7 @@ func (g *gen) next(w *world) []string {
 
 // ---- test entry ------------------------------------------------------------------------
 
-const rule = "histories of harness ops (run/ready/timer/emit/finish/reply/cancel/tick) against the real BuildClient in a synctest bubble, mode 0 = Run in a loop with LaunchWorkerThread's rule, mode 1 = real LaunchWorkerThread; replies: none/idle/execute(ok|bad suffix|bad digest function)/unknown/RPC error/invalid timestamp, update bursts up to 14 (channel capacity 10), readiness failures, shutdown at a random step, long polls (> 60 s) that hand out an action followed by shutdown before the next successful sync; non-trivial = an action was started, a running action was pre-empted by an idle/execute instruction, and at least one request was sent after shutdown began; distinct = hash of the applied op list"
+const rule = "histories of harness ops (run/ready/timer/emit/finish/reply/cancel/tick) against the real BuildClient in a synctest bubble, mode 0 = Run in a loop with LaunchWorkerThread's rule, mode 1 = real LaunchWorkerThread; replies: none/idle/execute(ok|bad suffix|bad digest function)/unknown/RPC error/invalid timestamp, update bursts up to 14 (channel capacity 10), readiness failures, shutdown at a random step, bursts of 9/10/11 updates pending when Execute returns while the thread is in Synchronize or backing off, long polls (> 60 s) that hand out an action followed by shutdown before the next successful sync; non-trivial = an action was started, a running action was pre-empted by an idle/execute instruction, and at least one request was sent after shutdown began; distinct = hash of the applied op list"
 
 func replayOps(t *testing.T, lines []string) outcome {
 	mode := 0
@@ -1291,6 +1323,7 @@ func TestHarness(t *testing.T) {
 			compare(&out, drv)
 		}
 		res.Histogram["long-poll-then-shutdown-plans"] += g.longPolls
+		res.Histogram["bursts-of-9-10-11-pending-at-return"] += g.fullBursts
 		res.Evaluations += len(out.ops)
 		res.TracesVsImpl++
 		res.Count(fmt.Sprintf("mode-%d", mode))
